@@ -495,6 +495,67 @@ fn main() {
             rep.violation("histogram-large-sample-not-counted-once", format!("sample {v} gave {n} occurrences"), json!({"sample": format!("{v}")}));
         }
     }
+    // an update that arrives INSIDE a readout - deterministically: the readout takes its
+    // timestamp from the thread's time source, and the time source installed here performs the
+    // update when asked for the time (a callback of the environment into the library). Updates
+    // through a fresh handle that is dropped at once, on a key that was idle before; kinds:
+    // counter / histogram; the callback fires in the 1st, 2nd or 3rd readout. All readouts
+    // together report every increment and sample exactly once.
+    {
+        #[derive(Clone)]
+        struct HookedClock(std::sync::Arc<std::sync::Mutex<Option<Box<dyn FnMut() + Send>>>>);
+        impl std::fmt::Debug for HookedClock {
+            fn fmt(&self, f: &mut std::fmt::Formatter<'_>) -> std::fmt::Result {
+                f.write_str("HookedClock")
+            }
+        }
+        impl metrique_timesource::Time for HookedClock {
+            fn now(&self) -> std::time::SystemTime {
+                let hook = self.0.lock().unwrap().take();
+                if let Some(mut h) = hook {
+                    h();
+                }
+                std::time::UNIX_EPOCH + std::time::Duration::from_secs(1_700_000_000)
+            }
+            fn instant(&self) -> std::time::Instant {
+                std::time::Instant::now()
+            }
+        }
+        let mut inside_cases = 0u64;
+        for emit_zero in [false, true] {
+            for fire_in in 0..3usize {
+                inside_cases += 1;
+                let rec: Rec = MetricRecorder::new_with_emit_zero_counters(emit_zero);
+                let (kc, kh) = (Key::from_name("ic"), Key::from_name("ih"));
+                rec.register_counter(&kc, &md()).increment(3);
+                rec.register_histogram(&kh, &md()).record(10.0);
+                let clock = HookedClock(Default::default());
+                let _g = metrique_timesource::set_time_source(metrique_timesource::TimeSource::custom(clock.clone()));
+                let (mut c_total, mut h_total) = (0u64, 0u64);
+                for r in 0..4usize {
+                    if r == fire_in {
+                        let rec2 = rec.clone();
+                        let (kc2, kh2) = (kc.clone(), kh.clone());
+                        *clock.0.lock().unwrap() = Some(Box::new(move || {
+                            rec2.register_counter(&kc2, &md()).increment(5);
+                            rec2.register_histogram(&kh2, &md()).record(20.0);
+                        }));
+                    }
+                    let items = read(&rec.readout()).items;
+                    c_total += items.iter().filter(|it| it.name == "ic").flat_map(|it| it.obs.iter()).map(|o| match o { Observation::Unsigned(v) => *v, _ => 0 }).sum::<u64>();
+                    h_total += items.iter().filter(|it| it.name == "ih").flat_map(|it| it.obs.iter()).map(|o| match o { Observation::Repeated { occurrences, .. } => *occurrences, _ => 1 }).sum::<u64>();
+                }
+                if c_total != 8 || h_total != 2 {
+                    rep.violation(
+                        "update-inside-a-readout:not-exactly-once",
+                        format!("emit_zero_counters={emit_zero}: an increment of 5 and one sample arrive while readout {fire_in} takes its timestamp (after 3 and one sample before); four readouts together report {c_total} increments (expected 8) and {h_total} samples (expected 2)"),
+                        json!({"emit_zero_counters": emit_zero, "update_arrives_inside_readout": fire_in, "increments_reported": c_total, "samples_reported": h_total}),
+                    );
+                }
+            }
+        }
+        rep.set("updates_arriving_inside_a_readout_cases", inside_cases);
+    }
     // two readouts of one recorder overlapping in time (the periodic reporter and an on-demand
     // readout): fixed scenario with real threads, repeated; after all updates have finished two
     // threads read out at the same moment (barrier) - whatever the overlap, both readouts
